@@ -61,5 +61,6 @@ def run(r):
     r.assumptions = ["the RustCrypto aes/cbc crates, md5 and sha2 are represented by the FIPS-197 / SP 800-38A / RFC 1321 / FIPS 180-4 specifications (compared with them on every case)",
                      "passwords reach the library as Rust strings (UTF-8); SASLprep is applied by neither side for R5/R6",
                      "the random salts / IV-like bytes of R5/R6 entries are read back from the produced entries"]
-    return standard(r, "c23", ["theories/C23/Proofs.vo", "theories/C23/AesCbc.vo"], ["theories/C23/Model.vo"], CHANNELS, classify=classify,
+    return standard(r, "c23", ["theories/C23/Proofs.vo", "theories/C23/AesCbc.vo", "theories/C23/UserHash.vo", "theories/C23/Alg2B.vo",
+                     "theories/C23/PermsModel.vo", "theories/C23/R56Model.vo"], ["theories/C23/Model.vo"], CHANNELS, classify=classify,
                     pre=corpus, harness_timeout=1500, eval_timeout=2400)
